@@ -3,11 +3,13 @@
 Real functions lowered on every run:
   src/server/QXmppIncomingClient.cpp: QXmppIncomingClient::{handleStanza, onPasswordReply, onDigestReply, onSasl2Authenticated, sendData,
       disconnectFromHost, handleStart}, QXmppIncomingClientPrivate::checkCredentials
-  src/base/QXmppSasl.cpp:             QXmppSaslServerPlain::respond, QXmppSaslServerAnonymous::respond
+  src/base/QXmppSasl.cpp:             QXmppSaslServerPlain::respond, QXmppSaslServerAnonymous::respond, the three mechanism() overrides,
+                                      QXmppSaslServerDigestMd5::respond + calculateDigest + QXmppSaslServer::{username,password,realm,passwordDigest,setUsername} (byte-term model)
+  src/base/Stream.cpp:                XmppSocket::isConnected;  QXmppIncomingClient::isConnected
   src/base/XmppSocket.h:              XmppSocket::socket
   src/server/QXmppPasswordChecker.cpp: QXmppPasswordChecker::checkPassword (the bundled base implementation), QXmppPasswordReply::setError, QXmppPasswordRequest::{setDomain, setUsername, setPassword, domain, username, password}, QXmppPasswordReply::{error, digest}
 """
-import os, re
+import os, re, sys
 from concurrent.futures import ThreadPoolExecutor
 from vlib.unit import Builder, Target, Spec, VERIF, scan_assumes
 from vlib.runner import Proof, ToolError
@@ -142,6 +144,67 @@ def sasl_object_write_inventory():
 WRITERS_UNDER_CONTRACT = {'handleStanza', 'onPasswordReply', 'onSasl2Authenticated'}
 
 
+def build_digest(work, proofs):
+    """QXmppSaslServerDigestMd5::respond in the byte-term model (qtmodel/terms.h).  The lowering profile, the term vocabulary and the RFC 2831
+    formulas are those of units/C06 (client side of the same mechanism): reused read-only; a change there that breaks this build is exit 2."""
+    c06 = os.path.join(VERIF, 'units', 'C06')
+    if c06 not in sys.path:
+        sys.path.append(c06)
+    import c06lower as P
+    prof = P.profile()
+    prof.types = dict(prof.types)
+    prof.calls = dict(prof.calls)
+    prof.class_types = set(prof.class_types)
+    prof.types.update({'QXmppSaslServer': 'QXmppSaslServer', 'QXmppSaslServerDigestMd5': 'QXmppSaslServerDigestMd5', 'QXmppSaslServerPrivate': 'QXmppSaslServerPrivate',
+                       'std::unique_ptr<QXmppSaslServerPrivate>': 'QXmppSaslServerPrivate*', 'QXmppSaslServer::Response': 'int'})
+    prof.class_types.update({'QXmppSaslServer', 'QXmppSaslServerDigestMd5', 'QXmppSaslServerPrivate'})
+    prof.calls.update({
+        'op->:QXmppSaslServerPrivate*': ('expr', '{0}'),
+        '*::username/0': P.base_getter('QXmppSaslServer_username', 'QS'),
+        '*::password/0': P.base_getter('QXmppSaslServer_password', 'QS'),
+        '*::realm/0': P.base_getter('QXmppSaslServer_realm', 'QS'),
+        '*::passwordDigest/0': P.base_getter('QXmppSaslServer_passwordDigest', 'BA'),
+        '*::setUsername/1': lambda lw, node, args: (lw.repo_callees.add('QXmppSaslServer_setUsername'), 'QXmppSaslServer_setUsername(&%s->base, %s)' % (args[0], args[1]))[1],
+    })
+    b = Builder('C16', work, prof)
+    src = path(SASL)
+
+    def tgt(filt, name, cname, this=None):
+        return Target(SASL, filt, name, cname, this=this, lowerer_cls=P.SaslLowerer)
+    sp = b.spec('digestRespond.spec')
+    t_resp = b.lower(tgt('QXmppSaslServerDigestMd5::respond', 'respond', 'QXmppSaslServerDigestMd5_respond', this='QXmppSaslServerDigestMd5'), sp)
+    t_dig = b.lower(tgt('calculateDigest', 'calculateDigest', 'calculateDigest'))
+    acc = [b.lower(tgt('QXmppSaslServer::' + n, n, 'QXmppSaslServer_' + n, this='QXmppSaslServer')) for n in ('username', 'password', 'realm', 'passwordDigest', 'setUsername')]
+    b.need_enums.setdefault((src, ()), {}).setdefault('QCryptographicHash::Algorithm', set()).update({'Md5'})
+    b.need_enums.setdefault((src, ()), {}).setdefault('QXmppSaslServer::Response', set()).update({'Challenge', 'Succeeded', 'Failed', 'InputNeeded'})
+    context = b.context()
+
+    def record(cls, base=None):
+        text, _ = ctx.emit_record(src, cls, cls, cls, prof, opaque_ok=True)
+        if base:
+            text = text.replace('{\n', '{\n  %s base;   /* base-class sub-object */\n' % base, 1)
+        return text
+    recs = [record('QXmppSaslServerPrivate'), record('QXmppSaslServer'), record('QXmppSaslServerDigestMd5', base='QXmppSaslServer')]
+    for r_, fs in zip(recs, (['username', 'password', 'passwordDigest', 'realm'], ['d'], ['m_cnonce', 'm_nc', 'm_nonce', 'm_secret', 'm_step'])):
+        for f_ in fs:
+            if not re.search(r'\b%s;' % f_, r_):
+                raise Unsupported('DIGEST-MD5 server records: member %s missing or of an unmodelled type (renamed/restructured code)' % f_)
+    TL = 24
+    resp_defs = '\n'.join('#define RESP_%s QXmppSaslServer_Response__%s' % (n, n) for n in ('Challenge', 'Succeeded', 'Failed', 'InputNeeded'))
+    c = '\n'.join(['#define TERM_L %d' % TL, '#include "terms.h"', context, resp_defs] + recs + [open(os.path.join(c06, 'mech_spec.h')).read(), rd('digest_model.h')] + acc + [t_dig, t_resp,
+                   'void h_digestRespond(void) { QXmppSaslServerDigestMd5 *self; const BA *request; BA *response; QXmppSaslServerDigestMd5_respond(self, request, response); }\n'])
+    f = b.write('c16_digest.c', c)
+    for pid, defs in (('digestRespond.step0', ['ONLY_STEP=0']), ('digestRespond.step1', ['ONLY_STEP=1']), ('digestRespond.step2', ['ONLY_STEP=2']), ('digestRespond.other_steps', ['OTHER_STEPS'])):
+        p = Proof(pid, f, 'h_digestRespond', enforce='QXmppSaslServerDigestMd5_respond', replace=['QXmppSaslDigestMd5_parseMessage', 'QXmppSaslDigestMd5_serializeMessage'],
+                  kind='complete', loop_contracts=False, unwind=TL + 2, include_dirs=[QT], defines=defs, timeout=1500, object_bits=10,
+                  note='loop-free; the real QXmppSaslServerDigestMd5::respond in the byte-term model (shared with C06): user, password, stored digest, realm, nonces, client message arbitrary (opaque); '
+                       'calculateDigest inlined (the real body); split by the value of the step counter; model-internal loops over the %d atom slots fully unwound' % TL)
+        p.labels = {'post': {'QXmppSaslServerDigestMd5_respond': sp.labels}}
+        p.expect_post = len(sp.labels)
+        proofs.append(p)
+    return b, rd('digest_model.h')
+
+
 def build(work, tier):
     prewarm([(path(IC), 'QXmppIncomingClient'), (path(IC), 'XmppSocket'), (path(IC), 'QXmppPasswordRe'), (path(PC), 'QXmppPasswordRequest::'), (path(PC), 'QXmppPasswordReply::'), (path(PC), 'QXmppPasswordChecker::checkPassword'), (path(PC), 'QXmppPasswordChecker::getDigest'), (path(SASL), 'QXmppSaslServerPlain::respond'), (path(SASL), 'QXmppSaslServerAnonymous::respond'), (path(SASL), 'QXmppSaslServerPlain::mechanism'), (path(SASL), 'QXmppSaslServerAnonymous::mechanism'), (path(SASL), 'QXmppSaslServerDigestMd5::mechanism'), (path(IC), 'QXmppIq')])
     # ------------------------------------------------------------------ the connection's private record, from the real class
@@ -203,6 +266,8 @@ def build(work, tier):
     for src, filt, name, cname, this in ((IC, 'QXmppIncomingClient', 'sendData', 'QXmppIncomingClient_sendData', 'QXmppIncomingClient'),
                                          (IC, 'QXmppIncomingClient', 'disconnectFromHost', 'QXmppIncomingClient_disconnectFromHost', 'QXmppIncomingClient'),
                                          (IC, 'QXmppIncomingClient', 'handleStart', 'QXmppIncomingClient_handleStart', 'QXmppIncomingClient'),
+                                         ('src/base/Stream.cpp', 'XmppSocket::isConnected', 'isConnected', 'XmppSocket_isConnected', 'XmppSocket'),
+                                         (IC, 'QXmppIncomingClient::isConnected', 'isConnected', 'QXmppIncomingClient_isConnected', 'QXmppIncomingClient'),
                                          (IC, 'XmppSocket', 'socket', 'XmppSocket_socket', 'XmppSocket'),
                                          (PC, 'QXmppPasswordRequest::', 'setDomain', 'QXmppPasswordRequest_setDomain', 'QXmppPasswordRequest'),
                                          (PC, 'QXmppPasswordRequest::', 'setUsername', 'QXmppPasswordRequest_setUsername', 'QXmppPasswordRequest'),
@@ -289,11 +354,18 @@ void h_checkCredentials(void) { gh_havoc(); QXmppIncomingClientPrivate *self; qb
           note='loop-free; the bundled QXmppPasswordChecker::checkPassword: every request, every verdict and secret of the (virtual) account lookup')
     proof('checkCredentials', 'h_checkCredentials', CC, stubs, (), note='loop-free; every mechanism name, every credential string')
     proof('onSasl2Authenticated', 'h_onSasl2Authenticated', S2A, stubs, (), note='loop-free; with and without an inline bind request')
-    proof('handleStanza', 'h_handleStanza', 'QXmppIncomingClient_handleStanza', stubs + [CC, S2A], ('F1_EXCLUDED',),
+    import json
+    fixed = {x['id'] for x in json.load(open(os.path.join(HERE, 'findings.json'))) if x.get('status') == 'fixed'}
+    if F1 in fixed:
+        proof('handleStanza', 'h_handleStanza', 'QXmppIncomingClient_handleStanza', stubs + [CC, S2A], (),
+              note='loop-free; every element (abstract DOM), every connection state (finding %s is repaired: no input class is set aside); '
+                   'checkCredentials and onSasl2Authenticated replaced by their verified contracts' % F1)
+    else:
+      proof('handleStanza', 'h_handleStanza', 'QXmppIncomingClient_handleStanza', stubs + [CC, S2A], ('F1_EXCLUDED',),
           note='loop-free; every element (abstract DOM), every connection state except the class of finding %s (unauthenticated connection, jabber:client element); '
                'checkCredentials and onSasl2Authenticated replaced by their verified contracts' % F1)
-    proof('handleStanza.finding', 'h_handleStanza', 'QXmppIncomingClient_handleStanza', stubs + [CC, S2A], ('F1_ONLY',), finding=F1,
-          note='same contract restricted to the class of finding %s' % F1)
+      proof('handleStanza.finding', 'h_handleStanza', 'QXmppIncomingClient_handleStanza', stubs + [CC, S2A], ('F1_ONLY',), finding=F1,
+            note='same contract restricted to the class of finding %s' % F1)
     proof('onPasswordReply', 'h_onPasswordReply', 'QXmppIncomingClient_onPasswordReply', stubs + [S2A], ('F3_EXCLUDED',),
           note='loop-free; every reply, every connection state except the class of %s (no SASL object)' % F3)
     proof('onPasswordReply.finding-null', 'h_onPasswordReply', 'QXmppIncomingClient_onPasswordReply', stubs + [S2A], ('F3_ONLY',), finding=F3,
@@ -326,7 +398,13 @@ void h_checkCredentials(void) { gh_havoc(); QXmppIncomingClientPrivate *self; qb
     p.expect_post = 3
     proofs.append(p)
 
-    unit_text = rd('model.h') + rd('lemma.h') + rd('callees.h') + open(os.path.join(QT, 'opaque.h')).read()
+    db, dtext = build_digest(work, proofs)
+    b.functions.extend(db.functions)
+    b.dropped.extend(db.dropped)
+    for k_, v_ in db.fired.items():
+        b.fired[k_] = b.fired.get(k_, 0) + v_
+
+    unit_text = dtext + rd('model.h') + rd('lemma.h') + rd('callees.h') + open(os.path.join(QT, 'opaque.h')).read()
     return {
         'proofs': proofs, 'functions': b.functions, 'dropped': b.dropped, 'fired': b.fired, 'hooks': [],
         'assumed': ASSUMED, 'assumes': scan_assumes(unit_text), 'not_covered': NOT_COVERED,
@@ -342,7 +420,8 @@ ASSUMED = [
     'A-SPLIT: QByteArray::split yields at least one part; the parts and their number, and QString::fromUtf8, are functions of the bytes (uninterpreted)',
     'A-HASH: QCryptographicHash::hash and QString::toUtf8 are functions of their operands; a digest and the encoding of a non-empty string are non-empty',
     'the reply consumed by onDigestReply obeys the contract of getDigest (no digest unless NoError): verified for the bundled QXmppPasswordChecker::getDigest, assumed for application subclasses that override getDigest',
-    'DIGEST-MD5 respond (assumed, read from QXmppSaslServerDigestMd5::respond): never sets a password, never steps back, asks for input while it has neither password nor digest, goes from step 1 to step 2 only by verifying the client\'s response against the stored digest, says Succeeded only from step 2',
+    'the DIGEST-MD5 clause of the handlers\' respond contract (never sets a password, never steps back, asks for input while it has neither password nor digest, goes from step 1 to step 2 only by verifying the client\'s response against the stored digest, Succeeded only from step 2) restates, in the opaque-id vocabulary, postconditions verified on the real QXmppSaslServerDigestMd5::respond in the byte-term model (digestRespond.spec); the correspondence of the two vocabularies is by reading',
+    'A-DIGEST-GRAMMAR: QXmppSaslDigestMd5::parseMessage / serializeMessage are functions of the message (directive present or not, value empty / the word auth / another byte string); term algebra of qtmodel/terms.h (A-CRYPTO, A-HEX, A-UTF8-HOM, A-SEQ) as in units/C06, whose lowering profile, mech_spec.h (RFC 2831 formulas) are reused read-only',
     'inside the bundled checkPassword / getDigest: getPassword() (virtual account lookup) returns any verdict and secret; new QXmppPasswordReply starts with NoError / not finished (its constructor\'s initialisers); finishLater() only schedules finished()',
     'QXmppPasswordChecker::checkPassword / getDigest (virtual, asynchronous) return a new reply object for the request; the reply that later runs a slot answers the request recorded for it (gh_sender_req_*)',
     'XmppSocket::sendData / disconnectFromHost are the only way bytes / a close reach the peer (event counters); payloads are classified by the C++ type passed to serializeXml',
@@ -355,7 +434,7 @@ ASSUMED = [
 ]
 NOT_COVERED = [
     'QXmppServer::routeData / routing tables, S2S, presence broadcasting: what happens to an element after elementReceived',
-    'DIGEST-MD5 server arithmetic (QXmppSaslServerDigestMd5::respond, the only mechanism that can say Succeeded on a non-anonymous user): that the comparison it makes is the RFC 2831 response computation',
+    'character-level grammar of DIGEST-MD5 messages (quoting, escaping) and freshness/unpredictability of the server nonce (generateNonce in the constructor; units/C06 verifies generateNonce)',
     'byte-level behaviour of QByteArray::split / QString::fromUtf8 (Qt) behind A-SPLIT; application subclasses of QXmppPasswordChecker',
     'handleStream (stream header, domain check) and sendStreamFeatures bodies',
     'histories: the contracts are per call over every connection state; no inductive lemma over sequences of calls is proved here',
@@ -374,6 +453,8 @@ REPLAY_MODES = {
     'post.routed_stanza_carries_the_senders_own_full_or_bare_address': ['spoof-from', 'prefix-from', 'good-from'],
     'post.client_supplied_own_address_is_kept_and_a_missing_one_is_stamped': ['good-from', 'spoof-from'],
     'post.sasl_success_authenticates_only_for_a_mechanism_backed_by_the_password_checker': ['anonymous-auth'],
+    'post.the_nonce_this_object_issued_is_never_overwritten': ['digest-replay'],
+    'post.step1_passes_only_if_the_response_is_the_rfc2831_value_for_the_stored_secret_the_issued_nonce_and_the_clients_cnonce_nc_digest_uri': ['digest-replay', 'digest-unknown-user', 'digest-known-user'],
     'post.the_reply_carries_a_digest_only_if_the_lookup_reported_NoError_otherwise_it_passes_the_error_on': ['digest-unknown-user'],
     'post.for_a_known_user_the_digest_is_md5_of_user_domain_and_the_stored_secret': ['digest-known-user', 'digest-unknown-user'],
     'lemma.digest_md5_verification_passes_only_for_a_user_the_checker_knows_and_against_the_digest_of_that_users_password': ['digest-unknown-user', 'digest-known-user'],
@@ -387,7 +468,7 @@ REPLAY_MODES = {
 }
 # modes that show a recorded finding: they reproduce on the unchanged tree, so they say nothing about a violation found outside that finding's class
 FINDING_MODES = {'unauth-message': F1, 'unauth-bind': F1, 'unauth-session': F1, 'pipelined-auth': F2, 'slow-fail-impersonation': F2, 'restart-pending-reply': F3}
-ALL_MODES = ['digest-unknown-user', 'digest-known-user', 'prefix-from', 'anonymous-auth', 'wrong-password', 'unauth-message', 'unauth-bind', 'unauth-session', 'spoof-from', 'good-from', 'pipelined-auth', 'slow-fail-impersonation', 'restart-pending-reply']
+ALL_MODES = ['digest-replay', 'digest-unknown-user', 'digest-known-user', 'prefix-from', 'anonymous-auth', 'wrong-password', 'unauth-message', 'unauth-bind', 'unauth-session', 'spoof-from', 'good-from', 'pipelined-auth', 'slow-fail-impersonation', 'restart-pending-reply']
 
 
 def run_mode(mode):
@@ -395,13 +476,18 @@ def run_mode(mode):
     return rc == 0 and 'REPRODUCED' in out and 'NOT-REPRODUCED' not in out, out
 
 
+def _fixed_findings():
+    import json
+    return {x['id'] for x in json.load(open(os.path.join(HERE, 'findings.json'))) if x.get('status') == 'fixed'}
+
+
 def find_input(unit, p, o, lab, work):
     modes = REPLAY_MODES.get(lab)
     if not modes and 'pointer_dereference' in (o.get('name') or '') and 'Reply' in (p.enforce or ''):
         modes = ['restart-pending-reply']
     for m in modes or []:
-        if m in FINDING_MODES and getattr(p, 'finding', None) != FINDING_MODES[m]:
-            continue
+        if m in FINDING_MODES and getattr(p, 'finding', None) != FINDING_MODES[m] and FINDING_MODES[m] not in _fixed_findings():
+            continue      # the mode shows an OPEN recorded finding: it reproduces on the unchanged tree and says nothing about this violation
         ok, out = run_mode(m)
         if ok:
             return {'inputs': {'driver': 'units/C16/replay_unauth.cpp', 'mode': m}, 'reproduced': True, 'native_output': out[-2500:]}
